@@ -48,6 +48,10 @@ CLAIMS = {
   text="(A) TLC explores every command history (length <= 6) of the implementation-shaped TrackingSolver model (pending_pop, backtrack points, clear_pending_pop decorator) and checks it refines the abstract SMT-LIB assertion stack. (B/C) all legal histories of the abstract machine up to length 3-4 (plus TLC-simulated histories of length 14) are replayed into real SmtLibScript objects built by the real parser (get_last_formula with goals read for every prefix) and into real IncrementalTrackingSolver subclasses incl. the in-tree Portfolio; every observation is validated by TLC against the abstract state (live assertions, live objectives, soft groups).",
   note="AssertionStack.tla is the SMT-LIB assertion-stack semantics with objectives / soft assertions scoped by level; solver doubles have no-op _push/_pop/_solve",
   tech=TECH + "design model checking (refinement) + TLC-enumerated histories replayed into scripts/solvers, observations validated by TLC", ref="DESIGN.md 3 C16"),
+ "C04": dict(
+  text="(A) TLC explores all histories of constructor calls (59 documented spellings / normalisations, length <= 3) in the implementation-shaped FormulaManager model (node table keyed by content, caches keyed by Python value equality) and checks OneObjectPerStructure, AccessorFidelity, TableInjective, CachesAgree. (B/C) TLC-enumerated (all singles, ordered pairs) and TLC-simulated (length 7) call histories are replayed in fresh Environments interleaved with unrelated constructions; identity classes and accessor read-back after every call are validated by TLC against the denotations of FMCalls.tla. normalize() into a second environment is validated for structural identity, no shared FNode objects, membership in the target manager.",
+  note="FMCalls.tla denotations are the documented spellings/normalisations; array-value assignment order (by object address) is abstracted by key-sorting",
+  tech=TECH + "design model checking of the hash-consing state machine + TLC-generated call histories replayed on FormulaManager, identity/read-back validated by TLC", ref="DESIGN.md 3 C04"),
 }
 NA_REASON = "check under construction in this round (planned with the same TLA+/TLC technique, see DESIGN.md)"
 
